@@ -52,6 +52,8 @@ class State:
     stale = 0
     created = 0  # Process objects created so far (= number of the next worker)
     group_procs = {}  # queue (batch group) number -> Process objects created for it
+    obs = 0  # looks of the parent at the victim's state so far (fault point after_observation)
+    obs_fired = False
 
 
 def item_id(obj):
@@ -91,6 +93,12 @@ def install(plan):
         return forced["groups"] == "all" or group in forced["groups"]
 
     # ---- queue seen by the parent --------------------------------------------------------------
+    def raw_alive(p):  # the harness's own looks at a worker do not count as observations of the parent
+        return ctxmp.Process.is_alive(p)
+
+    def raw_exit(p):
+        return ctxmp.Process.exitcode.fget(p)
+
     class VQueue(mpq.Queue):
         def __init__(self, *a, **k):
             super().__init__(*a, ctx=ctxmp, **k)
@@ -123,12 +131,12 @@ def install(plan):
                         if p.pid is not None:
                             p.join(timeout=15)
                     State.window_done.add(g)
-                    log("window_forced", group=g, all_dead=not any(p.is_alive() for p in procs))
-                if procs and all(p.pid is not None and p.exitcode == 0 for p in procs):
+                    log("window_forced", group=g, all_dead=not any(raw_alive(p) for p in procs))
+                if procs and all(p.pid is not None and raw_exit(p) == 0 for p in procs):
                     # every worker of the group has exited cleanly at a time-out: results may still be queued
                     log("window_reached", group=g)
                 State.processes = procs or State.processes
-                if State.processes is not None and not any(p.is_alive() for p in State.processes):
+                if State.processes is not None and not any(raw_alive(p) for p in State.processes):
                     State.empties_after_all_dead += 1
                     if State.empties_after_all_dead > 25:
                         raise NonTermination("parent still polling the queue 25 time-outs after the last worker died")
@@ -138,6 +146,38 @@ def install(plan):
             State.last_empty = False
             State.empties_after_all_dead = 0  # progress: only *consecutive* fruitless time-outs count
             return obj
+
+    # ---- processes seen by the parent: every look at a worker's state is an observation ------------
+    obs_fault = next((f for f in faults if f.get("point") == "after_observation"), None)
+
+    def observe(proc):
+        """fault point 'after_observation': the victim is killed right after the parent's n-th look
+        at its state (exit code / liveness), i.e. between two consecutive looks of the parent"""
+        if obs_fault is None or State.obs_fired or getattr(proc, "_vf_idx", None) != obs_fault["worker"]:
+            return
+        if proc.pid is None or proc._popen is None or proc._popen.returncode is not None:
+            return
+        State.obs += 1
+        if State.obs == int(obs_fault["n"]):
+            State.obs_fired = True
+            log("fault_fire", kind=obs_fault["kind"], observation=State.obs)
+            try:
+                os.kill(proc.pid, getattr(signal, obs_fault["kind"]))
+                os.waitid(os.P_PID, proc.pid, os.WEXITED | os.WNOWAIT)  # dead, not yet reaped by the parent
+            except (OSError, ChildProcessError):
+                pass
+
+    class TProcess(ctxmp.Process):
+        @property
+        def exitcode(self):
+            v = ctxmp.Process.exitcode.fget(self)
+            observe(self)
+            return v
+
+        def is_alive(self):
+            v = ctxmp.Process.is_alive(self)
+            observe(self)
+            return v
 
     class _MPShim:
         """stands in for the `mp` name inside gaftools.cli.realign: Process / Queue are the traced
@@ -154,7 +194,8 @@ def install(plan):
                 if tgt is wfa_wrapper:
                     tgt = orig_wfa
                 k["target"], k["args"] = worker_entry, (idx, tgt, args)
-            proc = ctxmp.Process(*a, **k)
+            proc = TProcess(*a, **k)
+            proc._vf_idx = idx
             State.group_procs.setdefault(State.queues - 1, []).append(proc)
             return proc
 
@@ -163,6 +204,14 @@ def install(plan):
             return VQueue(*a, **k)
 
         def __getattr__(self, name):
+            if name == "active_children":
+                def active_children():
+                    r = mp.active_children()
+                    for procs in State.group_procs.values():
+                        for q in procs:
+                            observe(q)
+                    return r
+                return active_children
             if name == "cpu_count" and plan.get("cpu_count"):
                 # the host's CPU count is part of the environment (realign clamps --cores with it)
                 return lambda: int(plan["cpu_count"])
@@ -273,7 +322,7 @@ def install(plan):
 
     def all_exited_w(processes):
         r = orig_exited(processes)
-        log("all_exited", r=r, codes=[p.exitcode for p in processes])
+        log("all_exited", r=r, codes=[raw_exit(p) for p in processes])
         return r
 
     if orig_wfa is not None:
@@ -314,6 +363,13 @@ def main(argv):
     faulthandler.enable(file=stacks)
     faulthandler.register(signal.SIGUSR1, file=stacks, all_threads=True)
     from vf.cli import run_cli
+    if spec["plan"].get("affinity"):
+        # the CPUs this process may use (taskset / cpuset / container limit), inherited by the workers
+        try:
+            allowed = sorted(os.sched_getaffinity(0))
+            os.sched_setaffinity(0, set(allowed[: max(1, int(spec["plan"]["affinity"]))]))
+        except (AttributeError, OSError):
+            pass
     probes_ok = install(spec["plan"])
     log("driver_start", argv=spec["argv"])
     o = run_cli(spec["argv"])
